@@ -285,7 +285,7 @@ def selfcheck(tier):
 
 
 def budget(tier):
-    return {"timeout": 1500.0 if tier == "quick" else 4000.0, "per_path": 120.0}
+    return {"timeout": 300.0 if tier == "quick" else 4000.0, "per_path": 120.0}
 
 
 META = {
